@@ -146,6 +146,55 @@ def s_scatter_all_static(ctx):
     ctx.check("C09.rules.ScatterAllStatic.updates_have_the_shape_of_data_for_every_binding", shp, CL09)
 
 
+def s_scatter_all_static_concrete(ctx):
+    """ScatterAllStatic.check with REAL numpy index arrays (every [k,1] array with k <= 3 and entries in 0..3): whatever numpy
+    formulation the check uses, it may accept only indices == [[0], [1], ..., [d0-1]] - any other array (a permutation,
+    a repeated row, a different count) does not overwrite data row by row with updates.  bounded stand-in for the
+    symbolic scenario above, robust to a rewrite of the comparison in numpy terms."""
+    import itertools
+    import numpy as np
+    import onnx_ir as ir
+    from onnxscript.rewriter.rules.common import _redundant_scatter_nd as mod
+    I = Interp(ctx)
+    W = World(I)
+    d0 = 1 + ctx.choose(3, "first dim of data")
+    two_d = ctx.choose(2, "data is 2-D") == 1
+    ddims = [d0, 4] if two_d else [d0]
+    drt = [z3.IntVal(v) for v in ddims]
+    data = W.value("data", dims=ddims, rt=drt, dtype=ir.DataType.FLOAT)
+    updates = W.value("updates", dims=list(ddims), rt=list(drt), dtype=ir.DataType.FLOAT)
+    k = ctx.choose(4, "number of index rows")
+    rows = [ctx.choose(4, f"row {j}") for j in range(k)]
+    arr = np.array(rows, dtype=np.int64).reshape(k, 1)
+    tens = SObj(ir.Tensor, "indices_tensor")
+
+    def f_numpy():
+        raise AssertionError
+    I.models[f_numpy] = lambda interp: arr
+    tens.fields.update(numpy=f_numpy, shape=ir.Shape([k, 1]), dtype=ir.DataType.INT64, size=k)
+    indices = W.value("indices", dims=[k, 1], rt=[], dtype=ir.DataType.INT64, const=tens, initializer=True)
+    node = W.node("ScatterND", [data, indices, updates])
+    context = SObj(object, "context")
+    context.fields.update(root=node, nodes=[node])
+    rule = SObj(mod.ScatterAllStatic, "rule")
+    try:
+        fired = I.truth(I.call(I.getattr(rule, "check"), [context, data, indices, updates]))
+    except PyRaise as e:
+        ctx.check("C05.rules.ScatterAllStatic.check_decides_every_constant_index_array", False, CL09 + f" — raised {type(e.exc).__name__}: {e.exc}")
+        return
+    ctx.check("C05.rules.ScatterAllStatic.check_decides_every_constant_index_array", True, CL09)
+    if fired:
+        ctx.check("C05.rules.ScatterAllStatic.fires_only_for_indices_0_to_n_minus_1_in_order", rows == list(range(d0)),
+                  "C05: 'same outputs ... equal values' — ScatterND writes updates[j] to row indices[j]: any other index array permutes or drops rows")
+    else:
+        ctx.cover("ScatterAllStatic.concrete.refused")
+
+
+SCENARIOS.append(Scenario("C05.rules.ScatterAllStatic[numpy index arrays]", s_scatter_all_static_concrete,
+                          [("onnxscript/rewriter/rules/common/_redundant_scatter_nd.py", "ScatterAllStatic.check")],
+                          kind="bounded", bound="index arrays [k,1], k <= 3, entries 0..3; data [d0] or [d0,4], d0 in 1..3", trusted=TRUST, max_paths=20000))
+
+
 SCENARIOS.append(Scenario("C05.rules.ScatterAllStatic", s_scatter_all_static,
                           [("onnxscript/rewriter/rules/common/_redundant_scatter_nd.py", "ScatterAllStatic.check"),
                            ("onnxscript/rewriter/rules/common/_redundant_scatter_nd.py", "ScatterAllStatic.rewrite")],
@@ -170,7 +219,9 @@ def s_materialize_reshape(ctx):
     I.models[_ir_utils.get_numpy_value] = lambda interp, v: ("array" if shape_const else None)
     out = W.value("out", dims=static, rt=rt, dtype=ir.DataType.FLOAT)
     context = SObj(object, "context")
-    context.fields["output_values"] = [out]
+    az = ctx.choose(3, "allowzero of the matched Reshape: absent / 0 / 1")
+    root = W.node("Reshape", [data, shape_in], outputs=[out], attrs=({} if az == 0 else {"allowzero": az - 1}))
+    context.fields.update(output_values=[out], root=root, nodes=[root])
     rule = SObj(mod.MaterializeReshapeShape, "rule")
     try:
         fired = I.truth(I.call(I.getattr(rule, "check"), [context, data, shape_in]))
